@@ -10,8 +10,8 @@ import (
 
 // calls reports whether fn contains a call (static or invoke) whose callee name ends with suffix.
 func callsSuffix(fn *ssa.Function, suffix string) bool {
-	for _, b := range fn.Blocks {
-		for _, in := range b.Instrs {
+	for _, in := range an.DeepInstrs(fn) {
+		{
 			if ci, ok := in.(ssa.CallInstruction); ok && strings.HasSuffix(an.CalleeName(ci), suffix) {
 				return true
 			}
@@ -78,7 +78,9 @@ func init() {
 			return uniqueIn(p, S, func(f *ssa.Function) bool { return all(f, "strconv.ParseUint", "strconv.ParseInt", "os.Open") })
 		}},
 		{Canon: S + ".isFormatSupportedFull", Find: func(p *an.Prog) *ssa.Function {
-			return uniqueIn(p, S, func(f *ssa.Function) bool { return f.Signature.Recv() == nil && all(f, "Hasher.IsValid", "Hasher.GetFormatID") })
+			return uniqueIn(p, S, func(f *ssa.Function) bool {
+				return f.Signature.Recv() == nil && all(f, "Hasher.IsValid", "Hasher.GetFormatID")
+			})
 		}},
 		{Canon: S + ".isFormatSupported", Find: func(p *an.Prog) *ssa.Function {
 			return uniqueIn(p, S, func(f *ssa.Function) bool {
@@ -193,8 +195,8 @@ func decoderCalledBy(p *an.Prog, ck *ssa.Function) *ssa.Function {
 		return nil
 	}
 	var found *ssa.Function
-	for _, b := range ck.Blocks {
-		for _, in := range b.Instrs {
+	for _, in := range an.DeepInstrs(ck) {
+		{
 			if ci, ok := in.(ssa.CallInstruction); ok {
 				if f := ci.Common().StaticCallee(); f != nil && an.FnPkgPath(f) == storePkg && callsSuffix(f, "Encoding).DecodeString") {
 					found = f
